@@ -3,6 +3,7 @@
 #  1. confirm in the scratch worktree: patch applies, 20 tests pass, demo FAILS with / PASSES without the change
 #  2. apply the patch to /repo, run the given checks (quick), revert /repo
 # Prints a summary; copies the seed into /verif/seeded/<Cxx>_<k>/ when confirmed.
+VERIF_DIR=$(cd "$(dirname "$0")/.." && pwd)     # works from any clone of /verif
 WT=$1; K=$2; shift 2
 S=$WT/_seeded/$K
 cd "$WT" || exit 2
@@ -21,16 +22,17 @@ git checkout -q -- . ; make -j16 >/dev/null 2>&1
 rundemo; WO=$?
 echo "CONFIRM tests_pass=$T demo_with_change_rc=$W demo_without_rc=$WO"
 if [ "$T" != "20" ] || [ "$W" = "0" ] || [ "$WO" != "0" ]; then echo "NOT-CONFIRMED"; fi
-cd /verif
+cd "$VERIF_DIR"
 # The checks are pointed at the scratch worktree (with the change applied) through QSX_REPO / QSX_CACHE instead
 # of applying the patch to /repo itself: builder agents and background runs build from /repo concurrently and
 # must never see a seeded change.  Same code path otherwise (tools/build_repo.sh honours QSX_REPO).
-EVB=$(mktemp -d /var/tmp/qsx_evb.XXXXXX); cp -a evidence/. "$EVB"/     # evidence written under a mutation must not survive
+SCR=$(mktemp -d /var/tmp/qsx_seedrun.XXXXXX)     # evidence / replays written under a mutation go to a scratch directory
 ( cd "$WT" && git checkout -q -- . && git apply "$S/patch.diff" ) || { echo "PATCH-DOES-NOT-APPLY"; exit 2; }
-export QSX_REPO="$WT" QSX_CACHE=/var/tmp/qsx-cache-seed
+export QSX_REPO="$WT" QSX_CACHE=$SCR/cache QSX_OUT=$SCR/out QSX_EVIDENCE=$SCR/evidence
+mkdir -p $SCR/out $SCR/evidence
 for c in "$@"; do
   out=$(timeout 1500 ./check $c quick 2>&1); rc=$?
   echo "CHECK $c rc=$rc  $(echo "$out" | grep -c '^VIOLATION') violation lines; first: $(echo "$out" | grep '^# ' | head -1 | cut -c1-220)"
 done
 ( cd "$WT" && git checkout -q -- . )
-cp -a "$EVB"/. evidence/; rm -rf "$EVB"; rm -rf /var/tmp/qsx-cache-seed
+rm -rf "$SCR"
